@@ -76,15 +76,16 @@ Ctrls == {"", "true", "false"}
 VARIABLES m, phase, budget
 vars == <<m, phase, budget>>
 
-EmptyModel == [gdecl |-> <<>>, templs |-> <<>>, insts |-> <<>>, procs |-> <<>>, seps |-> <<>>]
+EmptyModel == [gdecl |-> <<>>, templs |-> <<>>, insts |-> <<>>, procs |-> <<>>, seps |-> <<>>, localids |-> FALSE]
 NT == Len(m.templs)
 CurT == m.templs[NT]
 TemplName(n) == "T" \o ToString(n)
+(* ids are unique in the file, or - as libutap's own XML writer numbers them - restart at id0 in every template *)
 NextId == LET Cnt(t) == Len(t.locs) + Len(t.bps) IN
-          IF NT = 0 THEN 0 ELSE FoldLeft(LAMBDA acc, t : acc + Cnt(t), 0, m.templs)
+          IF NT = 0 THEN 0 ELSE IF m.localids THEN Cnt(CurT) ELSE FoldLeft(LAMBDA acc, t : acc + Cnt(t), 0, m.templs)
 IdOf(n) == "id" \o ToString(n)
 
-Init == m = EmptyModel /\ phase = "g" /\ budget = Budget
+Init == m \in {EmptyModel, [EmptyModel EXCEPT !.localids = TRUE]} /\ phase = "g" /\ budget = Budget
 
 Spend == budget > 0 /\ budget' = budget - 1
 
@@ -149,7 +150,7 @@ Label == /\ phase = "edges" /\ NE > 0 /\ Spend
                /\ \E k \in 1..Cap(Len(SyncPool)) : m' = [m EXCEPT !.templs[NT].edges[NE].sync = k]
             \/ /\ CurE.asg = 0 /\ CurE.prob = 0
                /\ \E k \in 1..Cap(Len(AsgPool)) : Provides(CurE, AsgPool[k].req) /\ (\A w \in AsgPool[k].wr : ~Provides(CurE, w)) /\ m' = [m EXCEPT !.templs[NT].edges[NE].asg = k]
-            \/ /\ CurE.prob = 0 /\ CurE.src \in BpIds(CurT)
+            \/ /\ CurE.prob = 0                                  \* weights usually sit on the branches leaving a branchpoint, but any edge may carry one
                /\ \E k \in 1..Cap(Len(ProbPool)) : m' = [m EXCEPT !.templs[NT].edges[NE].prob = k]
          /\ UNCHANGED phase
 
@@ -261,10 +262,10 @@ Resolved(mm) ==
                        sync |-> Txt(SyncPool, e.sync, ""), asg |-> TxtR(AsgPool, e.asg, ""), prob |-> Txt(ProbPool, e.prob, "")]]]],
      insts |-> [q \in 1..Len(mm.insts) |-> [name |-> mm.insts[q].name, own |-> [r \in 1..Len(mm.insts[q].own) |-> OwnPool[mm.insts[q].own[r]].txt],
                                            base |-> mm.insts[q].base, args |-> mm.insts[q].args]],
-     procs |-> mm.procs, seps |-> mm.seps]
+     procs |-> mm.procs, seps |-> mm.seps, localids |-> mm.localids]
 
 (* ---------------------------------------------------------------- sanity of the generator itself (checked on every state) *)
-AllIds(mm) == Flatten([t \in 1..Len(mm.templs) |-> [q \in 1..Len(mm.templs[t].locs) |-> mm.templs[t].locs[q].id] \o
+AllIds(mm) == IF mm.localids THEN <<>> ELSE Flatten([t \in 1..Len(mm.templs) |-> [q \in 1..Len(mm.templs[t].locs) |-> mm.templs[t].locs[q].id] \o
                                                   [q \in 1..Len(mm.templs[t].bps) |-> mm.templs[t].bps[q].id]])
 IdsUnique == LET ids == AllIds(m) IN \A a, b \in 1..Len(ids) : ids[a] = ids[b] => a = b
 RefsResolve == \A t \in 1..NT : LET tt == m.templs[t] IN
